@@ -1,11 +1,11 @@
 SPECIFICATION ISpec
-CONSTANTS Kind = "poolmap"
- Keys = {1, 2, 3, 4, 5}
- Vals = {1}
- CapArgs = {2}
- MaxBlocks = 2
+CONSTANTS Kind = "hashset"
+ Keys = {1, 2, 3}
+ Vals = {0}
+ CapArgs = {1, 2, 3}
+ MaxBlocks = 1
  UVars = {1}
  BVars = {}
- OpSet <- FewOps
+ OpSet <- AllOps
 INVARIANTS RefinementOK ChainsOK OrderOK FreeOK StoresOK TypeOK
 VIEW IView
